@@ -182,7 +182,9 @@ def unit_sweep(ctx, db, r):
             # repr round trip (also when the value arrived as a numpy scalar: a Scalar holds a plain float)
             import numpy as np
 
-            for vv, nm in ((np.float64(v), "np.float64"), (np.float32(2.5), "np.float32"), (np.int64(3), "np.int64"), (7, "int")):
+            for vv, nm in ((np.float64(v), "np.float64"), (np.float32(2.5), "np.float32"), (np.int64(3), "np.int64"), (7, "int"),
+                           (0.1 + 0.2, "17-digit float"), (1.1 * 1.1, "17-digit float"), (r.random() * 10 ** r.randint(-8, 8), "random float"), (-r.random(), "random float"),
+                           (5e-324, "tiny float"), (1.7976931348623157e308, "huge float")):  # fmt: skip
                 ctx.ev()
                 sv = Scalar(vv, u)
                 try:
